@@ -9,9 +9,11 @@
 (* registerQueryResponse): acks/responses are de-duplicated per node and put    *)
 (* into channels of capacity Cap (= number of memberlist members) without       *)
 (* blocking; at the deadline a timer closes the QueryResponse, which CLOSES     *)
-(* both channels.  A closed channel is always ready and yields zero values, so  *)
-(* once the response is closed the select may pick the ack / response case      *)
-(* again and again (From = "", Payload = nil) until it happens to pick done.    *)
+(* both channels.  A closed, drained channel is ready and yields ok = false:    *)
+(* the loop then sets its copy of the channel to nil (never ready again) and    *)
+(* goes round WITHOUT sending anything ("silent" iteration; at most one per     *)
+(* channel).  [Before commit b4a2fad the loop sent the zero values as records:  *)
+(* finding C25-closed-channel-zero-value, now fixed.]                           *)
 (* ackCh is nil (never ready) when no acks were requested.                      *)
 (*                                                                             *)
 (* Scheduling is explicit: the harness holds the loop in front of its select    *)
@@ -33,7 +35,7 @@ VARIABLES Q, M, obs, last, steps
 vars == <<Q, M, obs, last, steps>>
 
 NewQ == [ ack |-> FALSE, ackQ |-> <<>>, respQ |-> <<>>, acked |-> {}, resped |-> {},
-          fired |-> FALSE, closed |-> FALSE, pc |-> "none", stalled |-> FALSE, pend |-> <<>> ]
+          fired |-> FALSE, closed |-> FALSE, pc |-> "none", stalled |-> FALSE, pend |-> <<>>, nils |-> 0 ]
 
 Ack(n)     == [k |-> "ack", n |-> n, p |-> 0]
 Resp(n, p) == [k |-> "response", n |-> n, p |-> p]
@@ -41,9 +43,13 @@ DoneRec       == [k |-> "done", n |-> 0, p |-> 0]
 
 \* records the select may produce next
 Ready(q) ==
-  (IF q.ack /\ q.ackQ # <<>> THEN {Ack(Head(q.ackQ))} ELSE IF q.ack /\ q.closed THEN {Ack(0)} ELSE {})
-  \cup (IF q.respQ # <<>> THEN {Resp(Head(q.respQ).n, Head(q.respQ).p)} ELSE IF q.closed THEN {Resp(0, 0)} ELSE {})
+  (IF q.ack /\ q.ackQ # <<>> THEN {Ack(Head(q.ackQ))} ELSE {})
+  \cup (IF q.respQ # <<>> THEN {Resp(Head(q.respQ).n, Head(q.respQ).p)} ELSE {})
   \cup (IF q.fired THEN {DoneRec} ELSE {})
+\* closed and drained channels the loop may still find ready once each (it then nils them, silently)
+Drained(q) == IF q.closed THEN (IF q.ack /\ q.ackQ = <<>> THEN {"a"} ELSE {}) \cup (IF q.respQ = <<>> THEN {"r"} ELSE {}) ELSE {}
+CanSilent(q) == q.nils < Cardinality(Drained(q))
+Silent(q) == [q EXCEPT !.nils = @ + 1, !.pc = "gate"]
 
 \* one loop iteration producing r (r \in Ready(q)); the record reaches the client unless it is stalled
 Iter(q, r) ==
@@ -121,18 +127,20 @@ Inject(isAck, n, p) ==
 \* (a stalled client hides which case was taken until it reads again: only unambiguous iterations then)
 Step ==
   /\ Guard /\ Q.pc = "gate" /\ (Q.stalled => Cardinality(Ready(Q)) <= 1)
-  /\ IF Ready(Q) = {} THEN Fin([Q EXCEPT !.pc = "sel"], <<>>, [a |-> "step"])
-     ELSE \E r \in Ready(Q) : Fin(Iter(Q, r), Out(Q, r), [a |-> "step"])
+  /\ IF Ready(Q) = {} /\ ~CanSilent(Q) THEN Fin([Q EXCEPT !.pc = "sel"], <<>>, [a |-> "step"])
+     ELSE \/ \E r \in Ready(Q) : Fin(Iter(Q, r), Out(Q, r), [a |-> "step"])
+          \/ CanSilent(Q) /\ Fin(Silent(Q), <<>>, [a |-> "step"])
 
 \* the deadline passes: the loop's own timer (time.After(time.Until(deadline))) fires and serf's timer
 \* (AfterFunc(timeout), started a few instructions after the deadline was computed) closes the
 \* QueryResponse.  The two are microseconds apart and come in EITHER order (observed on the real code),
-\* so a loop blocked in the select is woken by its timer or by a closed channel: any case ready afterwards.
+\* so a loop blocked in the select is woken by its timer (done) or by a closed channel (silent iteration).
 \* (Not while the client is stalled: the case taken would stay hidden.)
 Expire ==
   /\ Guard /\ Q.pc # "none" /\ ~Q.fired /\ ~(Q.pc = "sel" /\ Q.stalled)
   /\ LET q1 == [Q EXCEPT !.fired = TRUE, !.closed = TRUE] IN
-     IF Q.pc = "sel" THEN \E r \in Ready(q1) : Fin(Iter(q1, r), Out(q1, r), [a |-> "expire"])
+     IF Q.pc = "sel" THEN \/ \E r \in Ready(q1) : Fin(Iter(q1, r), Out(q1, r), [a |-> "expire"])
+                          \/ CanSilent(q1) /\ Fin(Silent(q1), <<>>, [a |-> "expire"])
      ELSE Fin(q1, <<>>, [a |-> "expire"])
 
 Stall   == Guard /\ Q.pc \in {"gate", "sel"} /\ ~Q.stalled /\ Fin([Q EXCEPT !.stalled = TRUE], <<>>, [a |-> "stall"])
@@ -152,17 +160,14 @@ UnstallQ(q) ==
 ExpireQ(q) ==
   IF q.fired THEN q
   ELSE [q EXCEPT !.fired = TRUE, !.closed = TRUE, !.pc = IF @ = "sel" THEN "gate" ELSE @]
-IsBogus(r) == r.k # "done" /\ r.n = 0
-RECURSIVE Runs(_, _)
-Runs(q, n) ==   \* <<final q, records>> of the complete runs with at most n zero-value iterations
+RECURSIVE Runs(_)
+Runs(q) ==   \* <<final q, records>> of the complete runs (silent iterations leave no trace)
   IF q.pc = "end" THEN { <<q, <<>>>> }
-  ELSE UNION { IF IsBogus(r) /\ n = 0 THEN {}
-               ELSE { <<x[1], <<r>> \o x[2]>> : x \in Runs(Iter(q, r), IF IsBogus(r) THEN n - 1 ELSE n) }
-               : r \in Ready(q) }
+  ELSE UNION { { <<x[1], <<r>> \o x[2]>> : x \in Runs(Iter(q, r)) } : r \in Ready(q) }
 End ==
   /\ Guard /\ Q.pc # "none"
   /\ LET u == UnstallQ(Q)  e == ExpireQ(u[1]) IN
-     \E x \in Runs(e, 2) : Fin(x[1], u[2] \o x[2], [a |-> "end"])
+     \E x \in Runs(e) : Fin(x[1], u[2] \o x[2], [a |-> "end"])
 
 Init == Q = NewQ /\ M = NewM /\ obs = NoObs /\ last = [a |-> "init"] /\ steps = 0
 Next == \/ \E b \in BOOLEAN : Query(b)
@@ -171,7 +176,6 @@ Next == \/ \E b \in BOOLEAN : Query(b)
         \/ Step \/ Expire \/ Stall \/ Unstall \/ End
 Spec == Init /\ [][Next]_vars
 
-\* the model (= the code as it is) meets the query-stream clauses except for zero-value records after expiry
-C25QWaived == M.bad = {} \/ (M.bad = {"C25_q_bogus_record"} /\ "closed_channel_zero_value" \in M.tags)
-C25Q == M.bad = {}    \* expected to be VIOLATED: the recorded finding is reachable
+\* the model (= the code as it is, closed channels silenced) meets the query-stream clauses
+C25Q == M.bad = {}
 =============================================================================
